@@ -226,10 +226,11 @@ def check_property_file(pid):
 # -------------------------------------------------- running the implementation
 def run_impl_one(query, inp, mode='json', extra_args=(), binary=None, timeout=20):
     """run the real binary; returns dict(rc, out, err, timed_out)"""
-    args = [binary or AGRIND, query]
+    # options first, then `--`, then the query: a query that starts with `-` is a query, not an option
+    args = [binary or AGRIND]
     if mode is not None:
         args += ['-o', mode]
-    args += list(extra_args)
+    args += list(extra_args) + ['--', query]
     try:
         p = subprocess.run(args, input=inp, stdout=subprocess.PIPE, stderr=subprocess.PIPE,
                            timeout=timeout, env=ENV)
